@@ -18,7 +18,8 @@ import (
 // (K:ctl) is lost again and again, and the backend turns away a number of the reconnection attempts that follow
 // before it lets one through. What the backend sees - when each attempt arrives - is the only observation.
 // op:   K:<pool|ctl> B:<base delay ms> M:<max delay ms> R:<k1>,<k2>,...   (round i: drop the connection, turn away k_i attempts;
-//       a suffix e on k_i: the attempts are turned away with an ERROR in answer to STARTUP instead of a closed socket)
+//       a suffix e on k_i: the attempts are turned away with an ERROR in answer to STARTUP instead of a closed socket;
+//       a suffix s: the attempts are accepted and never answered - the proxy gives up on each after T:<connect timeout ms>)
 // real: gaps=<ms>,<ms>,..;<ms>,..  one group per round: drop -> first attempt, then attempt -> next attempt
 //       (the last attempt of a group is the one let through)  [stuck:<round>] when no attempt arrived in time
 //       out=<reported outage ms>/<ms since the drop>;..  per round, read when the last attempt that is turned away arrives (- if none)
@@ -32,8 +33,10 @@ func runHeal(op string) (out string) {
 		}
 	}()
 	kind, base, max := "pool", 1, 3000
+	connectTimeout := 2000
 	var rounds []int
 	var byError []bool
+	var bySilence []bool
 	for _, t := range strings.Fields(op) {
 		switch {
 		case strings.HasPrefix(t, "K:"):
@@ -42,25 +45,36 @@ func runHeal(op string) (out string) {
 			base, _ = strconv.Atoi(t[2:])
 		case strings.HasPrefix(t, "M:"):
 			max, _ = strconv.Atoi(t[2:])
+		case strings.HasPrefix(t, "T:"):
+			connectTimeout, _ = strconv.Atoi(t[2:])
 		case strings.HasPrefix(t, "R:"):
 			for _, x := range strings.Split(t[2:], ",") {
-				k, _ := strconv.Atoi(strings.TrimSuffix(x, "e"))
+				k, _ := strconv.Atoi(strings.TrimRight(x, "es"))
 				rounds = append(rounds, k)
 				byError = append(byError, strings.HasSuffix(x, "e"))
+				bySilence = append(bySilence, strings.HasSuffix(x, "s"))
 			}
 		}
 	}
 	env, err := e2e.Start(e2e.Options{Hosts: 1, NumConns: 1, ReconnectBase: time.Duration(base) * time.Millisecond,
-		ReconnectMax: time.Duration(max) * time.Millisecond, ConnectTimeout: 2 * time.Second})
+		ReconnectMax: time.Duration(max) * time.Millisecond, ConnectTimeout: time.Duration(connectTimeout) * time.Millisecond})
 	if err != nil {
 		return "env-error"
 	}
 	defer env.Close()
 	node := env.Cluster.Node(env.IPs[0])
 	// the proxy holds a control connection (registered for events) and one pooled connection
+	var mu sync.Mutex
+	silent := map[*fakecass.Conn]bool{}
 	ready := func() bool {
 		reg, plain := 0, 0
 		for _, c := range node.Conns() {
+			mu.Lock()
+			q := silent[c]
+			mu.Unlock()
+			if q { // an attempt the node never answered: the proxy gave up on it (it does not close such a socket, see DESIGN §0.3)
+				continue
+			}
 			if c.Registered() {
 				reg++
 			} else {
@@ -82,14 +96,17 @@ func runHeal(op string) (out string) {
 	if !waitReady(5 * time.Second) {
 		return "env-error:not-ready"
 	}
-	var mu sync.Mutex
 	refuse := 0
-	withError := false
+	withError, withSilence := false, false
 	refusing := map[*fakecass.Conn]bool{}
 	env.Cluster.SetStartupHandler(func(c *fakecass.Conn, h *frame.Header) (fakecass.Response, bool) {
 		mu.Lock()
 		r := refusing[c]
+		q := silent[c]
 		mu.Unlock()
+		if q { // the node has accepted the connection and says nothing: the proxy has to give up on it by itself
+			return fakecass.Response{Kind: fakecass.RespSilent}, true
+		}
 		if !r {
 			return fakecass.Response{}, false
 		}
@@ -107,8 +124,11 @@ func runHeal(op string) (out string) {
 			if withError {
 				refusing[c] = true
 			}
+			if withSilence {
+				silent[c] = true
+			}
 		}
-		byErr := withError
+		byErr := withError || withSilence
 		mu.Unlock()
 		if turnAway && !byErr {
 			c.Close()
@@ -120,6 +140,7 @@ func runHeal(op string) (out string) {
 		mu.Lock()
 		refuse = k
 		withError = byError[ri]
+		withSilence = bySilence[ri]
 		arrivals = nil
 		mu.Unlock()
 		for len(arrived) > 0 {
@@ -142,6 +163,9 @@ func runHeal(op string) (out string) {
 			mu.Unlock()
 			gaps = append(gaps, fmt.Sprint(at.Sub(last).Milliseconds()))
 			last = at
+			if bySilence[ri] && a < k { // a silent attempt ends when the proxy's connect timeout expires: the delay counts from there
+				last = at.Add(time.Duration(connectTimeout) * time.Millisecond)
+			}
 			if a == k-1 { // the last attempt that is turned away has just arrived
 				out = fmt.Sprintf("%d/%d", env.Proxy.OutageDuration().Milliseconds(), time.Since(dropped).Milliseconds())
 			}
@@ -167,6 +191,8 @@ func genHeal(e *emitter, r *rng.R, n int, tier string) {
 		"K:ctl B:1 M:400 R:9,1",
 		"K:pool B:1 M:1500 R:2e,1,3e", // a node that is up but answers STARTUP with an error for a while
 		"K:ctl B:1 M:1500 R:3e,0,2e",
+		"K:ctl B:1 M:400 T:300 R:2s,0,1s",   // a node that accepts the connection and never answers the handshake
+		"K:pool B:1 M:400 T:300 R:2s,1,1s",
 		"K:pool B:40 M:3000 R:0,0,0,0,0,0", // losses without failed attempts: always the same first delay
 		"K:ctl B:40 M:3000 R:0,0,0,0,0,0",
 	}
